@@ -108,7 +108,7 @@ CHECKS = {
    design_ref="DESIGN.md section 6, C07 and section 12.3",
    note="Trusted: TLC, the recorder's logging (cross-checked by SumOf against the project.h projection), the ASan/UBSan build. Assumptions: default type filters; conventional type order; hostile strings that may describe more than 12000 objects are parsed but not loaded; attached-NUMA index order at several depths is judged as a set only; -coverage replaced by feature counts in the evidence file."),
  "C18": dict(
-   technique="TLC enumerates and simulates (snapshot, fault set, configuration) tuples and the load / load / XML-trip protocol from spec/MC_Snapshot.tla over the path tables of the 73 bundled Linux snapshots and x86 CPUID dumps; each tuple is executed on a hard-linked scratch copy by the ASan+UBSan+LSan recorder harness/hwv_snapshot.c, and TLC validates the recorded ndjson against spec/TraceSnapshot.tla (WellFormed, Deterministic, DisallowedRel, XmlSelfConsistent)",
+   technique="TLC enumerates and simulates (snapshot, fault set, configuration) tuples and the load / load / XML-trip protocol from spec/MC_Snapshot.tla over the path tables of the 73 bundled Linux snapshots and x86 CPUID dumps; each tuple is executed on a hard-linked scratch copy by the ASan+UBSan+LSan recorder harness/hwv_snapshot.c, and TLC validates the recorded ndjson against spec/TraceSnapshot.tla (WellFormed, Deterministic, DisallowedRel, XmlSelfConsistent); staggered removals on the snapshots with CPU kinds (attribute class j removed on the CPUs i with (i + offset) % modulus = j % modulus, so that the partitions of the CPUs by the different ranking attributes stop nesting)",
    category="model_checking",
    text="Conformance of the real loader to the four TLA+ relations on a seeded sample of the fault space. Exhaustive only for the unmodified snapshots under every configuration, for the always-removed key paths, and (thorough) for single and pairwise removals on the ~20 snapshots with at most 60 core paths. All other fault sets are striped or simulated, because the property quantifies over all subsets of up to 16k paths.",
    design_ref="DESIGN.md section 6, C18 and section 12.3",
